@@ -196,7 +196,7 @@ def run(ctx):
             args = ["phase", "-r", fa, "-o", os.path.join(d, "out.vcf")]
             tag = r2.choice(["PS", "HP"])
             args += ["--tag", tag]
-            only_snvs = r2.random() < 0.2
+            only_snvs = r2.random() < (0.6 if prephased and len(kinds) > 1 else 0.2)
             if only_snvs:
                 args += ["--only-snvs"]
             target = list(sc.samples)
